@@ -436,6 +436,112 @@ def run_case(rec):
     return RUNNERS[rec["kind"]](rec)
 
 
+# ---------------------------------------------------------------------------------- C13: one-equation one-unknown system = plain loss
+def run_sysplain(rec):
+    """differential clause of C13 on REAL networks (MLP PINN / hyper-network PINN, float weights): a one-equation one-unknown
+    SystemLossPDE / SystemLossODE must return the terms of the plain loss built from the same pieces.  No polynomial oracle here:
+    the two objects are compared with each other (relative 1e-9 under x64)."""
+    import warnings
+
+    import equinox as eqx
+    import jax
+    import jax.numpy as jnp
+    import jinns
+    from jinns.data._Batchs import ODEBatch, PDENonStatioBatch, PDEStatioBatch
+    from jinns.data._DataGenerators import append_param_batch
+    from jinns.loss import ODE, PDENonStatio, PDEStatio
+
+    warnings.simplefilter("ignore")
+    out = dict(rec)
+    out["ok"], out["exc"], out["detail"] = True, "", ""
+    lk, net, seed, pb = rec["lkind"], rec["net"], rec["seed"], rec["pbatch"]
+    try:
+        key = jax.random.PRNGKey(seed)
+        dim = 0 if lk == "ode" else 1 + seed % 2
+        nin = dim + (0 if lk == "statio" else 1)
+        eq_type = {"ode": "ODE", "statio": "statio_PDE", "nonstatio": "nonstatio_PDE"}[lk]
+        eqx_list = ((eqx.nn.Linear, nin, 3), (jax.nn.tanh,), (eqx.nn.Linear, 3, 1))
+        if net == "hyper":
+            u = jinns.utils.create_HYPERPINN(key, eqx_list, eq_type, ["nu"], 1, dim,
+                                             eqx_list_hyper=((eqx.nn.Linear, 1, 4), (jax.nn.tanh,), (eqx.nn.Linear, 4, 1000)))
+        else:
+            u = jinns.utils.create_PINN(key, eqx_list, eq_type, dim)
+        eqp = {"nu": jnp.array(0.7), "a": jnp.array(-0.4)}
+
+        def resid(val, inputs, p):
+            return val * p.eq_params["nu"] + jnp.sum(inputs) ** 2 - p.eq_params["a"]
+
+        def call(net_, inputs, p):
+            if lk == "nonstatio":
+                return net_(inputs[:1], inputs[1:], p)
+            return net_(inputs, p)
+        base = {"ode": ODE, "statio": PDEStatio, "nonstatio": PDENonStatio}[lk]
+
+        class Plain(base):
+            def equation(self, *a):
+                *xs, net_, p = a
+                inputs = jnp.concatenate([jnp.atleast_1d(v) for v in xs])
+                return resid(call(net_, inputs, p), inputs, p)
+
+        class Sys(base):
+            def equation(self, *a):
+                *xs, nets, pd = a
+                inputs = jnp.concatenate([jnp.atleast_1d(v) for v in xs])
+                p = pd.extract_params("u1")
+                return resid(call(nets["u1"], inputs, p), inputs, p)
+
+        n = 4
+        pts = jax.random.uniform(jax.random.PRNGKey(seed + 1), (n, max(nin, 1)), minval=0.1, maxval=0.9)
+        params = jinns.parameters.Params(nn_params=u.init_params(), eq_params=eqp)
+        pdict = jinns.parameters.ParamsDict(nn_params={"u1": u.init_params()}, eq_params=eqp)
+        kwp, kws = {}, {}
+        if lk == "ode":
+            batch = ODEBatch(temporal_batch=pts[:, 0])
+            ic = (0.0, jnp.array([0.3]))
+            plain = jinns.loss.LossODE(u=u, dynamic_loss=Plain(Tmax=1), initial_condition=ic, params=params)
+            syst = jinns.loss.SystemLossODE(u_dict={"u1": u}, dynamic_loss_dict={"e": Sys(Tmax=1)}, initial_condition_dict={"u1": ic},
+                                            loss_weights=jinns.loss.LossWeightsODEDict(dyn_loss=1.0, initial_condition=1.0, observations=1.0),
+                                            params_dict=pdict)
+        else:
+            border = jnp.stack([jnp.concatenate([pts[:, :nin - dim], jnp.full((n, dim), v)], axis=1) for v in ([0.0, 1.0] if dim == 1 else [0.0, 1.0, 0.0, 1.0])],
+                               axis=-1)
+            f = (lambda t, dx: jnp.array([0.2])) if lk == "nonstatio" else (lambda dx: jnp.array([0.2]))
+            if lk == "statio":
+                batch = PDEStatioBatch(inside_batch=pts, border_batch=border)
+                plain = jinns.loss.LossPDEStatio(u=u, dynamic_loss=Plain(Tmax=1), omega_boundary_fun=f, omega_boundary_condition="dirichlet", params=params)
+            else:
+                batch = PDENonStatioBatch(times_x_inside_batch=pts, times_x_border_batch=border)
+                kwp = dict(initial_condition_fun=lambda x: jnp.array([0.1]) + jnp.sum(x))
+                kws = dict(initial_condition_fun_dict={"u1": kwp["initial_condition_fun"]})
+                plain = jinns.loss.LossPDENonStatio(u=u, dynamic_loss=Plain(Tmax=1), omega_boundary_fun=f, omega_boundary_condition="dirichlet",
+                                                    params=params, **kwp)
+            syst = jinns.loss.SystemLossPDE(u_dict={"u1": u}, dynamic_loss_dict={"e": Sys(Tmax=1)}, omega_boundary_fun_dict={"u1": f},
+                                            omega_boundary_condition_dict={"u1": "dirichlet"}, loss_weights=jinns.loss.LossWeightsPDEDict(),
+                                            params_dict=pdict, **kws)
+        if pb:
+            batch = append_param_batch(batch, {"nu": (0.5 + jnp.arange(n) / 3.0)[:, None]})
+        tp, dp = plain.evaluate(params, batch)
+        ts, ds = syst.evaluate(pdict, batch)
+        bad = []
+        for k_, v in dict(dp, total=tp).items():
+            w = ds.get(k_, 0.0) if k_ != "total" else ts
+            if not bool(jnp.allclose(jnp.asarray(v), jnp.asarray(w), rtol=1e-9, atol=1e-12)):
+                bad.append(f"{k_}: plain {float(v):.12g} system {float(w):.12g}")
+        if bad:
+            out["ok"], out["detail"] = False, "; ".join(bad)
+    except Exception as ex:  # noqa
+        import os
+        import traceback
+        frames = traceback.extract_tb(ex.__traceback__)
+        if not any(os.sep + "jinns" + os.sep in f.filename and "/verif/" not in f.filename for f in frames):
+            raise
+        out["exc"] = f"{type(ex).__name__}: {str(ex)[:200]}"
+    return out
+
+
+RUNNERS["sysplain"] = run_sysplain
+
+
 # ---------------------------------------------------------------------------------- C06
 def _grad_problem(lkind, seed):
     """a loss whose every (term, group) pair has a non-zero gradient: u = V * k1 + k2 (affine output transform),
